@@ -80,10 +80,11 @@ type World struct {
 // ---------- fault-injecting backends ----------
 
 type faults struct {
-	armed bool
-	k     int // fail the k-th backend call (0-based) counted since arming
-	n     int
-	hits  int
+	silent bool // the failing call is a token conversion that answers "nothing done, no error" (a token contract that no longer exists)
+	armed  bool
+	k      int // fail the k-th backend call (0-based) counted since arming
+	n      int
+	hits   int
 }
 
 func (f *faults) hit() bool {
@@ -128,6 +129,11 @@ func (e *stubErc20) GetCoinAddress(ctx sdk.Context, denom string) (common.Addres
 func (e *stubErc20) ConvertERC20(goCtx context.Context, msg *erc20types.MsgConvertERC20) (*erc20types.MsgConvertERC20Response, error) {
 	ctx := sdk.UnwrapSDKContext(goCtx)
 	if e.f.hit() {
+		if e.f.silent {
+			// what the erc20 module answers when the token's contract has destroyed itself: it drops the pair, converts nothing,
+			// and reports no error
+			return nil, nil
+		}
 		return nil, fmt.Errorf("injected erc20 failure")
 	}
 	from := sdk.AccAddress(common.HexToAddress(msg.Sender).Bytes())
@@ -789,6 +795,7 @@ func (w *World) exec(line string) Result {
 		k, _ := strconv.Atoi(f[1])
 		ff := w.Faults()
 		ff.armed, ff.k, ff.n, ff.hits = k >= 0, k, 0, 0
+		ff.silent = len(f) > 2 && f[2] == "silent"
 		return Result{Line: "ok"}
 	case "block":
 		if w.Real {
